@@ -18,8 +18,10 @@ RULES = {
     'R4': 'no state leaks from one directive to the next: locals read in an iteration before being written in it are only the cursors',
     'R5': 'the blackbox reserves header + max_line_length and every serialize call is given at most max_line_length (= C11.R3)',
     'R6': 'encoder and decoder agree on where the arguments start: the decoder looks behind the stored format\'s terminator, so wherever the encoder shortens the stored format (stores a NUL into it) it moves its argument cursor back on the same path',
+    'R7': 'the decoder hands snprintf only directives printf accepts: the value of a \'*\' argument is pasted into the rebuilt directive only where it is non-negative or does not follow the precision dot (a negative precision means "none given")',
+    'R8': 'the buffer the decoder rebuilds a directive in holds the longest directive without repeated flags: % + every flag character of its switch once + two \'*\' values of 11 characters + the dot + a two-letter length modifier + the conversion + NUL',
 }
-FLOORS = {'R1': 12, 'R2': 20, 'R3': 20, 'R4': 2, 'R5': 12, 'R6': 1}
+FLOORS = {'R1': 12, 'R2': 20, 'R3': 20, 'R4': 2, 'R5': 12, 'R6': 1, 'R7': 1, 'R8': 1}
 
 
 def strl_summary(an, ev, st):
@@ -212,6 +214,7 @@ def run(ctx):
     r4(ctx, e, d)
     r5(ctx)
     r6(ctx, e)
+    r7(ctx, d)
 
 
 def _switch_block(f):
@@ -502,3 +505,65 @@ def r6(ctx, e):
               'where the stored format is shortened the argument cursor moves back before it is used',
               'the stored format is shortened (NUL stored through %s) without the argument cursor %s being moved back: the decoder, which looks for the arguments behind the stored '
               'format\'s terminator, reads every argument one byte early' % (estr(bad[0].lhs) if bad else '', cur))
+
+
+def r7(ctx, d):
+    prog = ctx.prog
+    sw = _switch_block(d)
+    tg = _case_targets(d, sw)
+    if '*' not in tg:
+        raise AnalysisBroken('%s: no case for *' % d.name)
+    arrs = {ev.d['var']: prog.type_info(ev.d['ty']).get('n') for ev in d.events('DECL') if prog.type_info(ev.d.get('ty', '')).get('kind') == 'array'}
+    if len(arrs) != 1:
+        raise AnalysisBroken('%s: directive buffers = %s' % (d.name, sorted(arrs)))
+    fbuf, cap = list(arrs.items())[0]
+    # R7: the formatted '*' value
+    pastes = []
+    for ev in d.events('CALL'):
+        if ev.callee in ('snprintf', 'sprintf') and ev.args and fbuf in estr(ev.args[0]):
+            pastes.append(ev)
+    if not pastes:
+        raise AnalysisBroken('%s: the * value is not formatted into %s' % (d.name, fbuf))
+    for ev in pastes:
+        val = estr(unwrap(ev.args[-1]))
+        curs = {unwrap(n['i'])['n'] for n in walk(ev.args[0]) if n.get('k') == 'idx' and unwrap(n['i']).get('k') == 'var'}
+
+        def harmless(a, fb, val=val, curs=curs):
+            l = unwrap(a.l)
+            if a.ls == val and a.op == '>=' and a.rc == 0:
+                return True
+            if l.get('k') == 'idx' and estr(unwrap(l['b'])) == fbuf and a.op == '!=' and a.rc == ord('.'):
+                return True
+            return l.get('k') == 'var' and l['n'] in curs and a.op in ('<=', '<') and a.rc is not None and a.rc <= 1
+        ctx.check('R7', 'star-value-not-a-negative-precision', d.uncut_path(ev, harmless) is None, ev,
+                  'the * value is pasted only where it is >= 0 or does not follow the dot',
+                  'a negative \'*\' precision is pasted into the directive ("%.*d" with -1 becomes "%.-1d", which printf does not take: the dump shows '
+                  '"%.0-1d" instead of the number)')
+    # R8
+    mods = set()
+    loops = d.natural_loops()
+    hs = [h for h in loops if sw.id in loops[h]]
+    outer = max(hs, key=lambda h: len(loops[h]))
+    for c, start in tg.items():
+        seen, work, reached = set(), [start], set()
+        while work:
+            b = work.pop()
+            if b in seen:
+                continue
+            seen.add(b)
+            if (b in hs or b == sw.id) and b != start:
+                reached.add(b)
+                continue
+            blk = d.blocks[b]
+            if blk.noreturn or b == d.exit:
+                continue
+            work.extend(t for (t, _l) in blk.succs)
+        if reached and outer not in reached:
+            mods.add(c)
+    LENGTH = set('hlztjLq')
+    flags = {c for c in mods if not c.isdigit() and c not in '.*' and c not in LENGTH}
+    need = 1 + len(flags) + 11 + 1 + 11 + 2 + 1 + 1
+    ctx.check('R8', 'directive-buffer-holds-a-whole-directive', cap is not None and cap >= need, d,
+              '%s[%s] >= %d (%% + %d flags + two * values + dot + length modifier + conversion + NUL)' % (fbuf, cap, need, len(flags)),
+              '%s[%s] is smaller than the longest directive without repeated flags (%d): the decoder ends the message where such a directive starts, '
+              'silently ("%%-*.*lld" with two large values)' % (fbuf, cap, need))
